@@ -420,6 +420,20 @@ def check_case_tokens(eoc, ops, recs):
                 if imap.get((k, t)) != ret and cur[ret] == "S":
                     return dict(i=j, check="K2", sig="get-returned-not-the-map-instance", obj=ret,
                                 detail="get(%s, token=%r) returned instance %d but identity_map has %s" % (k, t, ret, imap.get((k, t))))
+        if not failed and kind == "merge" and prev is not None and 0 <= op[1] < len(prev["objs"]):
+            # merge of a source that carries an identity (pk, token): the instance returned, when it has
+            # an identity, has exactly that one and is the identity map's instance for it
+            src = prev["objs"][op[1]]
+            ret = _ret(r["res"])
+            if src["key"] is not None and isinstance(ret, int) and 0 <= ret < len(objs) and objs[ret]["key"] is not None and cur[ret] == "S":
+                if objs[ret]["key"] != src["key"] or objs[ret]["token"] != src["token"]:
+                    return dict(i=j, check="K5", sig="merge-returned-other-identity", obj=ret,
+                                detail="merge of instance %d with identity (%s, %r) returned instance %d whose identity is (%s, %r)" % (
+                                    op[1], src["key"], src["token"], ret, objs[ret]["key"], objs[ret]["token"]))
+                if imap.get((src["key"], src["token"])) != ret:
+                    return dict(i=j, check="K5", sig="merge-returned-not-the-map-instance", obj=ret,
+                                detail="merge of instance %d (%s, %r) returned instance %d but identity_map has %s" % (
+                                    op[1], src["key"], src["token"], ret, imap.get((src["key"], src["token"]))))
         if not failed and kind in ("query", "queryt"):
             t = op[1] if kind == "queryt" else None
             ret = _ret(r["res"])
